@@ -2,6 +2,7 @@ import Thanos.Common.Parse
 import Thanos.Model.Bucket
 import Thanos.Model.DedupFilter
 import Thanos.Model.Retention
+import Thanos.Model.Shipper
 /-
   Line-protocol driver of the `block` family (C28 C31 C32 C33 C35).
   One request per line, one answer per line; every line is self-contained.
@@ -22,6 +23,12 @@ import Thanos.Model.Retention
           answer: deleted=<ids ascending>
         (times are absolute, around a nominal base; the Go side shifts them to the wall clock — `shift`
         fields are for the Go side only)
+
+  C35   ship.run <cfg> <blocks> <steps>
+          cfg    = <uploadCompacted 0|1><allowOutOfOrderUploads 0|1>
+          blocks = <id>:<minT>:<maxT>:<level>:<numSamples>:<indexSize>:<seg>,<seg>,…;…   (sorted by minT, distinct)
+          steps  = s:<k> | s:x (one Sync with crash budget) | rm (shipper file lost) ; …
+        answer: <status>[<mutating calls>]file=<ids|none> … => b<id>{<listing>} …
 -/
 open Thanos Thanos.Parse
 
@@ -177,8 +184,72 @@ def c32Partial (now marked partials : String) : String :=
     s!"deleted={showNats "," (sortNats (Retention.partialDeletes (now * Retention.nsPerMs) marked ps))}"
   | _, _, _ => "bad-op"
 
+-- ---------------------------------------------------------------- C35
+
+def showOpB : Op → String
+  | .put (n, f) (.data sz) => if isJsonName f then s!"put {n}/{showName f}" else s!"put {n}/{showName f} {sz}"
+  | .put (n, f) (.metaJson _ _) => s!"put {n}/{showName f}"
+  | .del (n, f) => s!"del {n}/{showName f}"
+
+def segName (i : Nat) : String :=
+  let d := toString (i + 1)
+  "chunks/" ++ String.ofList (List.replicate (6 - d.length) '0') ++ d
+
+def parseLBlock (t : String) : Option Shipper.LBlock :=
+  match splitChar ':' t with
+  | [i, mn, mx, lv, ns, ix, segs] => do
+    let i ← parseNat? i
+    let mn ← parseInt? mn
+    let mx ← parseInt? mx
+    let lv ← parseNat? lv
+    let ns ← parseNat? ns
+    let ix ← parseNat? ix
+    let segs ← parseNats? ',' segs
+    pure ⟨i, mn, mx, lv, ns, ⟨(List.range segs.length).zip segs |>.map (fun p => (segName p.1, p.2)), ix⟩⟩
+  | _ => none
+
+def parseCfg (s : String) : Option Shipper.Cfg :=
+  match s.toList with
+  | [a, b] => if (a = '0' ∨ a = '1') ∧ (b = '0' ∨ b = '1') then some ⟨a = '1', b = '1'⟩ else none
+  | _ => none
+
+inductive ShipStep where
+  | sync (k : Option Nat)
+  | rm
+
+def parseShipStep (t : String) : Option ShipStep :=
+  if t = "rm" then some .rm else
+  match splitChar ':' t with
+  | ["s", k] => (parseBudget k).map .sync
+  | _ => none
+
+def showFile : Option (List Nat) → String
+  | none => "none"
+  | some ids => showNats "," ids
+
+def runShip (cfg : Shipper.Cfg) (locals : List Shipper.LBlock) : Shipper.State → List ShipStep → List String × Shipper.State
+  | st, [] => ([], st)
+  | st, .rm :: rest =>
+    let (outs, st') := runShip cfg locals ⟨st.bkt, none⟩ rest
+    ("rm" :: outs, st')
+  | st, .sync k :: rest =>
+    let r := Shipper.sync cfg locals k st
+    let (outs, st') := runShip cfg locals r.st rest
+    let status := if r.ok then "ok" else "err"
+    (s!"{status}[{",".intercalate (r.trace.map showOpB)}]file={showFile r.st.file}" :: outs, st')
+
+def shipRun (cfg blocks steps : String) : String :=
+  match parseCfg cfg, (listOf ';' blocks).mapM parseLBlock, (listOf ';' steps).mapM parseShipStep with
+  | some cfg, some bs, some sts =>
+    if sts.isEmpty then "bad-op" else
+    let (outs, st) := runShip cfg bs ⟨[], none⟩ sts
+    let listing := bs.map fun b => s!"b{b.id}\{{showListing st.bkt b.id}}"
+    " ".intercalate outs ++ " => " ++ " ".intercalate listing
+  | _, _, _ => "bad-op"
+
 def handle : List String → String
   | ["blk.run", chunks, index, steps] => blkRun chunks index steps
+  | ["ship.run", cfg, blocks, steps] => shipRun cfg blocks steps
   | ["c32.ret", now, rets, blocks] => c32Ret now rets blocks
   | ["c32.clean", now, delay, marks] => c32Clean now delay marks
   | ["c32.partial", now, marked, partials] => c32Partial now marked partials
